@@ -406,3 +406,56 @@ def restore_locks(undo):
             setattr(h, name, val)
         except (AttributeError, TypeError):
             pass
+
+
+class SimCondition:
+    """Stands in for threading.Condition inside the simulation (wait / notify / notify_all on a
+    simulated lock).  A waiter that is never notified leaves no runnable thread in the end: DEADLOCK."""
+
+    def __init__(self, lock=None):
+        self._lock = lock if lock is not None else SimRLock()
+        self._waiters = []
+        self.acquire = self._lock.acquire
+        self.release = self._lock.release
+
+    def __enter__(self):
+        self._lock.acquire()
+        return self
+
+    def __exit__(self, *exc):
+        self._lock.release()
+        return False
+
+    def wait(self, timeout=None):
+        sim = SimLock.sim
+        if sim is None or sim.cur is None:
+            raise SimSelfDeadlock("Condition.wait() with nobody who could notify")
+        me = sim.cur
+        count = getattr(self._lock, "count", 1)
+        if hasattr(self._lock, "count"):
+            self._lock.count = 1
+        self._lock.release()
+        self._waiters.append(me)
+        me.state = "blocked"
+        sim._switch_from(me, must=True)          # returns when somebody has notified us and we were scheduled
+        self._lock.acquire()
+        if hasattr(self._lock, "count"):
+            self._lock.count = count
+        return True
+
+    def wait_for(self, predicate, timeout=None):
+        while not predicate():
+            self.wait()
+        return True
+
+    def notify(self, n=1):
+        for _ in range(n):
+            if not self._waiters:
+                break
+            w = self._waiters.pop(0)
+            w.state = "run"
+
+    def notify_all(self):
+        self.notify(len(self._waiters))
+
+    notifyAll = notify_all
